@@ -97,18 +97,18 @@ def parse_tsan_logs(workdir, tag):
             if not m:
                 continue
             kind = m.group(1).strip().replace(" ", "-")
-            # split into stack sections
-            secs = re.split(r"\n\s*\n", blk)
+            # only the access stacks (first two stack sections) name the race; "As if synchronized via sleep",
+            # "Location is", "Mutex ... created at" and thread-creation stacks are context
             frames = []
-            for s in secs:
-                if re.match(r"\s*(Write|Read|Previous|Atomic|Mutex|Thread T\d+ .*created|  Location)", s.strip()) or \
-                   re.search(r"^\s*(Write|Read|Previous write|Previous read|Previous atomic|Atomic)", s, re.M):
-                    fr = first_repo_frame(s)
-                    if fr and len(frames) < 2:
-                        frames.append("%s" % fr[0])
+            secs = re.split(r"\n\s*\n", blk)
+            acc = [s_ for s_ in secs if re.search(r"^\s*(Write|Read|Previous write|Previous read|Previous atomic|Atomic write|Atomic read|Cycle in lock|Mutex M\d+ acquired)", s_, re.M)]
+            if kind != "data-race" and not acc:
+                acc = secs[:3]
+            for s_ in acc[:2]:
+                fr = first_repo_frame(s_)
+                frames.append(fr[0] if fr else "harness")
             if not frames:
-                fr = first_repo_frame(blk)
-                frames = [fr[0] if fr else "?"]
+                frames = ["?"]
             key = "tsan/%s@%s" % (kind, "|".join(sorted(frames)))
             if key not in reps:
                 reps[key] = dict(kind=kind, key=key, text=blk[:4000], count=0)
@@ -224,13 +224,16 @@ def run_leg(exe, leg, seed, total, workdir, flavour, harness, extra_args=(), job
                 break
             case = pr[0]
             local.cases_done += pr[1]
+            if rc == 97 and "VH-WATCHDOG" in err:
+                timed_out = True
             if timed_out:
                 # confirm on the single case with a fresh process before calling it a hang
                 cmd1 = [exe, "--seed", str(seed), "--first", str(case), "--count", "1", "--mode", mode,
-                        "--out", workdir, "--progress", prog + ".1"] + list(extra_args) + list(leg.get("args", []))
+                        "--out", workdir, "--progress", prog + ".1", "--watchdog", "0"] + list(extra_args) + list(leg.get("args", []))
                 rc1, out1, err1, to1 = _run_child(cmd1, env, case_timeout)
                 if to1:
                     local.hangs += 1
+                    crashes += 1
                     local.viols.append(dict(meta, t="viol", key="hang/%s" % (mode or "case"), case=case, seed=seed,
                                             detail="case did not finish within %ds (twice, second time alone in a fresh process)" % case_timeout,
                                             desc=(err1 or err)[-1500:]))
